@@ -10,6 +10,7 @@ from vlib.common import Hex
 ERRC = [("zip central directory not found", 2), ("expected ZIP64 locator", 3), ("missing ZIP64 header", 4),
         ("expected end record", 5), ("local file header not found", 6), ("data descriptor signature is missing", 7),
         ("data descriptor is invalid", 8), ("attempted to seek backwards", 9), ("new zipfile", 10),
+        ("central directory is truncated", 11), ("central directory is out of bounds", 12),
         ("negative offset", 1), ("EOF", 1), ("invalid argument", 1)]
 PANC = [("slice bounds out of range", 1), ("index out of range", 1), ("makeslice", 2), ("nil pointer", 3)]
 
